@@ -170,16 +170,27 @@ fn faulty_proof(rng: &mut Rng, pool: &[MSet], set: usize, t: &Toggles) -> ProofS
         3,
     ]) {
         0 => {
-            p.tamper = match rng.below(9) {
+            p.tamper = match rng.below(11) {
                 0 => Tamper::Weight { i: rng.below(8) as u8, delta: if rng.chance(1, 2) { 1 } else { -1 } },
                 1 => Tamper::Threshold { delta: if rng.chance(1, 2) { 0 } else { -1 } },
                 2 => Tamper::Nonce,
                 3 => Tamper::Drop { i: rng.below(8) as u8 },
                 4 => Tamper::Add { key: rng.below(N_KEYS as u64) as u8 },
                 5 => Tamper::Dup { i: rng.below(8) as u8 },
+                9 => Tamper::DupMany { i: rng.below(8) as u8, n: rng.below(6) as u8 },
+                10 => Tamper::DupInflated { i: rng.below(8) as u8 },
                 6 => Tamper::Swap { i: rng.below(8) as u8, j: rng.below(8) as u8 },
                 _ => Tamper::AsOtherSet { j: rng.below(pool.len() as u64) as u8 },
             };
+            if matches!(p.tamper, Tamper::Dup { .. } | Tamper::DupMany { .. } | Tamper::DupInflated { .. }) {
+                p.mask = u32::MAX;
+            }
+            // the realistic tampering: the signers signed honestly for the registered set
+            // and somebody altered the declaration afterwards (so the signatures are over
+            // the digest that binds the *registered* set's hash)
+            if rng.chance(2, 3) {
+                p.digest.set_hash = 1;
+            }
         }
         1 => {
             // make sure the faulty position is one that signs and is needed
